@@ -2,6 +2,7 @@
    fields; the result is one line of bytes.  All parsing and printing is Gallina, so that the
    OCaml driver only moves bytes. *)
 From BCL Require Import Model.DumpLoad Model.Lexer Model.Api.
+From BCL Require Import Model.CliRun.
 From BCL Require Spec.Format.
 From BCL Require Model.Proto.
 From BCL Require Import Model.Reflect.
@@ -353,6 +354,31 @@ Definition suite_cliargs (c : bytes) : bytes :=
              ++ bs " bloadfile=" ++ hex_of_bytes (Cli.a_bloadFile a) ++ bs " help=" ++ b (Cli.a_help a)
   end.
 
+(* clirun: fields = argv-list ; stdin ; files (name, content, name, content ...) ; target kind of the dump file (o / c / w).
+   prints: status, stdout (bytes before any -r lines), whether -r lines follow, the file written, the error class *)
+Definition suite_clirun (c : bytes) : bytes :=
+  match fields c with
+  | argv :: stdin :: files :: tk :: _ =>
+    let fix pairs (l : list bytes) : list (bytes * bytes) :=
+      match l with k :: v :: r => (k, v) :: pairs r | _ => [] end in
+    let t := hd_byte tk in
+    let w := mkWorld stdin (pairs (fields files))
+                     (fun _ => if t =? 99 then TgCreateFails else if t =? 119 then TgWriteFails else TgOk) in
+    match cli_main (fields argv) w with
+    | MUsage _ => bs "status=2 usage"
+    | MHelp => bs "status=0 help"
+    | MRun r =>
+      bs "status=" ++ dec_of_N (cr_status r) ++ bs " stdout=" ++ hex_of_bytes (out_bytes (cr_stdout r))
+      ++ bs " r=" ++ (match cr_result r with Some _ => [49] | None => [48] end)
+      ++ bs " written=" ++ (match cr_written r with Some (n, b) => hex_of_bytes n ++ [58] ++ hex_of_bytes b | None => [45] end)
+      ++ bs " err=" ++ bs (match cr_err r with
+                           | None => "none" | Some EOpen => "open" | Some (EParse _) => "parse" | Some (ELoad _) => "load"
+                           | Some EDumpCreate => "dump-create" | Some EDumpWrite => "dump-write" | Some (ERuntime _ _) => "runtime"
+                           | Some (EInternal _) => "internal" | Some (EModel _) => "MODEL" end)
+    end
+  | _ => bs "bad-case"
+  end.
+
 (* verify: the bytecode verifier on program parts (as produced by the REAL compiler) *)
 Definition suite_verify (c : bytes) : bytes :=
   if verify (prog_of_parts (read_parts (fields c))) then bs "verified" else bs "REJECTED".
@@ -438,6 +464,7 @@ Definition run_suite (name : bytes) (c : bytes) : bytes :=
   else if bytes_eqb name (bs "proto") then suite_proto c
   else if bytes_eqb name (bs "bind") then suite_bind c
   else if bytes_eqb name (bs "cliargs") then suite_cliargs c
+  else if bytes_eqb name (bs "clirun") then suite_clirun c
   else if bytes_eqb name (bs "verify") then suite_verify c
   else if bytes_eqb name (bs "verifysrc") then suite_verifysrc c
   else if bytes_eqb name (bs "t2check") then suite_t2check c
